@@ -170,3 +170,19 @@ func (k *RealKafka) Close() {
 
 // GetOffsetsReal runs one refresh cycle against the real sarama client, through Burrow's real shim.
 func (c *KafkaCluster) GetOffsetsReal(k *RealKafka) { c.m.VerifGetOffsets(k.shim) }
+
+// SeedAddr is the address of broker 1, for a module that connects by itself.
+func (k *RealKafka) SeedAddr() string { return k.brokers[1].Addr() }
+
+// AskedSince reports whether any broker has received an offset request since the last call of Since.
+func (k *RealKafka) AskedSince() bool {
+	for id, b := range k.brokers {
+		hist := b.History()
+		for _, rr := range hist[k.seen[id]:] {
+			if _, ok := rr.Request.(*sarama.OffsetRequest); ok {
+				return true
+			}
+		}
+	}
+	return false
+}
